@@ -4,6 +4,7 @@ import glob, json, os
 V = os.path.dirname(os.path.dirname(os.path.abspath(__file__)))
 rows = []
 DESC = json.load(open(os.path.join(V, "seeded", "descriptions.json")))
+FIRST = json.load(open(os.path.join(V, "seeded", "first_eval.json")))   # rounds 3 and 4: verdict of the check as it was when the change arrived
 for f in sorted(glob.glob(os.path.join(V, "seeded", "*", "meta.json"))):
     m = json.load(open(f))
     if DESC.get(m["id"]) and m.get("needs_to_manifest") != DESC[m["id"]]:
@@ -11,11 +12,12 @@ for f in sorted(glob.glob(os.path.join(V, "seeded", "*", "meta.json"))):
         json.dump(m, open(f, "w"), indent=1)
     chk = [r for r in m["ran"] if r["cmd"].startswith("tools/check.py")]
     rows.append((m["id"], ",".join(m["breaks_property"]), m.get("summary", m.get("needs_to_manifest", "")),
-                 "yes" if m.get("ok") else "NO", "yes" if m.get("caught_by_check") else "NO",
+                 "yes" if m.get("ok") else "NO", FIRST.get(m["id"], "see DESIGN.md 12.7"),
+                 "yes" if m.get("caught_by_check") else "NO",
                  "; ".join("%s: %s violation(s)" % (r["cmd"].split()[2], r.get("violations")) for r in chk)))
 with open(os.path.join(V, "seeded", "README.md"), "w") as out:
     out.write("# Independently written breaking changes (see DESIGN.md 12.4)\n\n")
-    out.write("| id | property | what it is / what it needs to manifest | confirmed (demo fails with, passes without; suite green) | caught by the quick check | detail |\n|---|---|---|---|---|---|\n")
+    out.write("| id | property | what it is / what it needs to manifest | confirmed (demo fails with, passes without; suite green) | first evaluation | caught by the quick check now | detail |\n|---|---|---|---|---|---|---|\n")
     for r in rows:
-        out.write("| %s | %s | %s | %s | %s | %s |\n" % r)
+        out.write("| %s | %s | %s | %s | %s | %s | %s |\n" % r)
 print(len(rows), "seeds")
